@@ -10,5 +10,8 @@ def run(tier, seed):
         {"prog": "page", "strategy": "random", "runs": (100, 1500), "args": ["--snap", "3", "--size", "60000", "65536", "--spurious", "1"]},
         {"prog": "page", "strategy": "random", "runs": (100, 1500), "args": ["--snap", "3", "--size", "100", "128", "--spurious", "1"]},
         {"prog": "exit", "strategy": "random", "runs": (100, 1500), "args": ["--spurious", "1"]},
+        {"prog": "page-aligned", "strategy": "random", "runs": (120, 1500), "args": ["--snap", "3", "--spurious", "1", "--rate", "3"]},
+        {"prog": "page-aligned", "strategy": "pct", "runs": (80, 1000), "args": ["--snap", "3"]},
+        {"prog": "page-delete", "strategy": "random", "runs": (100, 1500), "args": ["--snap", "3", "--spurious", "1", "--rate", "3"]},
     ]
     return concfam.run_conc("C02", tier, seed, jobs, GUARDS, mc=("MiPage", ("MiPage_mc.cfg", "MiPage_mc_thorough.cfg")), guided_progs=("page", "page-main"))
